@@ -1,4 +1,5 @@
 import Solstat.Props.Lift
+import Solstat.Reloc
 import Solstat.Props.TreeLemmas
 /-!
 # Relocation of a parse tree
@@ -10,19 +11,6 @@ offset map), and what a change of the file number does (with `ρ` replacing the 
 namespace Solstat
 open Solstat.Gen T
 
-mutual
-def mapLoc (ρ : Loc → Loc) : T → T
-  | .node tag ks =>
-    if tag = .Loc_File then
-      match ks with
-      | [.nat f, .nat s, .nat e] => Loc.toT (ρ ⟨f, s, e⟩)
-      | _ => .node tag (mapLocL ρ ks)
-    else .node tag (mapLocL ρ ks)
-  | t => t
-def mapLocL (ρ : Loc → Loc) : List T → List T
-  | [] => []
-  | k :: ks => mapLoc ρ k :: mapLocL ρ ks
-end
 
 theorem mapLocL_eq_map (ρ : Loc → Loc) (ks : List T) : mapLocL ρ ks = ks.map (mapLoc ρ) := by
   induction ks with
@@ -265,20 +253,6 @@ theorem filterMap_detector_equivariant (ts : List Target) (g : T → Option Loc)
 
 /-! ## the locations of a tree; relocations that agree on them agree on the tree -/
 
-mutual
-/-- every source location occurring in a tree, in pre-order -/
-def locsOf : T → List Loc
-  | .node tag ks =>
-    if tag = .Loc_File then
-      match ks with
-      | [.nat f, .nat s, .nat e] => [⟨f, s, e⟩]
-      | _ => locsOfL ks
-    else locsOfL ks
-  | _ => []
-def locsOfL : List T → List Loc
-  | [] => []
-  | k :: ks => locsOf k ++ locsOfL ks
-end
 
 mutual
 theorem mapLoc_congr (ρ σ : Loc → Loc) : ∀ t : T, (∀ l ∈ locsOf t, ρ l = σ l) → mapLoc ρ t = mapLoc σ t
